@@ -32,6 +32,11 @@ CLAIMED = {
             "shapes, ordering, singular values, orthonormality, truncation error (on squares), sign rule and non-negativity are "
             "checked on every return value. Sampled up to 12x12; symeig orthonormality beyond the numerical rank is a listed finding.",
             "Trusted: numpy.linalg.svd in float64.", "DESIGN.md §2 C05"),
+    "C12": ("runtime postcondition monitor on prox returns: reference minimiser, KKT/feasibility, idempotence, firm non-expansiveness, competitor search",
+            "Seeded inputs in eight value classes x 14 operators x parameters; every returned point is judged against an independent "
+            "exact reference (closed forms, sort-based simplex, PAVA, exact unimodal regression, LAPACK SVD) and against random "
+            "feasible competitors; projections re-applied; convex operators tested for firm non-expansiveness. Sampled, sizes <= 8x4.",
+            "Trusted: the harness' reference algorithms (cross-checked by the competitor search), numpy.linalg.", "DESIGN.md §2 C12"),
 }
 
 PENDING_REASON = "check not built yet in this session; see DESIGN.md §2 for the planned monitor"
